@@ -777,6 +777,13 @@ class Translator:
             return np.dot(as_arr(args[0]), as_arr(args[1]))
         if last == "diag":
             return np.diag(a0) + sp.Integer(0)
+        if last == "cross":
+            return np.cross(as_arr(args[0]), as_arr(args[1]))
+        if last == "normalize":
+            a = as_arr(a0)
+            nrm = sp.sqrt(np.sum(a * a, axis=ax(-1)))
+            nn = np.expand_dims(as_arr(nrm), -1) if isinstance(nrm, np.ndarray) else nrm
+            return (a / nn, nrm)
         if last == "transpose":
             perm = kwargs.get("perm", args[1] if len(args) > 1 else None)
             return np.transpose(a0, [_pyint(x) for x in perm] if perm is not None else None)
